@@ -303,7 +303,6 @@ def run(repo: Repo, rep: Report, tier: str) -> None:
 
 
 
-_CODEC_FOLDS: dict = {}
 
 
 def codec_fold_rule(repo: Repo, rep: Report, rid: str, slots: tuple[str, ...] | None = None, only: str | None = None) -> None:
@@ -317,10 +316,10 @@ def codec_fold_rule(repo: Repo, rep: Report, rid: str, slots: tuple[str, ...] | 
     n = 0
     expected = 0
     for fam in ("Int", "Packed", "Wchar", "Char"):
-        k = (id(repo), fam)
-        if k not in _CODEC_FOLDS:
-            _CODEC_FOLDS[k] = codecfold.fold_family(repo, fam) if fam in ("Int", "Packed") else codecfold.fold_text_family(repo, fam)
-        fold = _CODEC_FOLDS[k]
+        cache = repo.__dict__.setdefault("_codec_folds", {})  # on the repo object: ids of dead Repo objects are reused within one process
+        if fam not in cache:
+            cache[fam] = codecfold.fold_family(repo, fam) if fam in ("Int", "Packed") else codecfold.fold_text_family(repo, fam)
+        fold = cache[fam]
         if fold is None:
             rep.ok(rid, f"types:{fam}:fold", "not foldable with the evaluator's whitelist: the structural rules of this property decide alone", "", nontrivial=False)
             continue
